@@ -713,7 +713,7 @@ pub fn run(args: &Args) {
         body["key"].as_str().unwrap_or("").to_string()
     });
     // policies are generated and run in bounded chunks; the small ones are kept for part (3)
-    let misplaced_bound = args.tier.pick(3usize, 4usize);
+    let misplaced_bound = args.tier.pick(2usize, 4usize);
     let mut small: Vec<Vec<Stmt>> = Vec::new();
     let mut pending: Vec<Vec<Stmt>> = Vec::new();
     let mut seen = 0u64;
@@ -742,12 +742,16 @@ pub fn run(args: &Args) {
             run_policies(&mut rep_cell.borrow_mut(), &pending, false);
         }
     }
-    if replay_key.is_some() && seen == 0 {
-        mcx::machinery_error("replay policy is not in the enumerated space");
+    if replay_key.is_some() {
+        if seen == 0 {
+            mcx::machinery_error("replay policy is not in the enumerated space");
+        }
+        rep.set("exhaustive", false);
+        rep.finish();
     }
 
     // (3) misplaced finish-only statements must be rejected
-    let mut check_variants = |rep: &mut Report, variants: Vec<(String, String)>| {
+    let check_variants = |rep: &mut Report, variants: Vec<(String, String)>| {
         let results: Vec<bool> = variants.par_iter().map(|v| vmrun::compile_text_quiet(&v.1, Ffi::None).is_ok()).collect();
         for (accepted, (desc, _text)) in results.into_iter().zip(variants) {
             rep.count("misplaced_variants", 1);
